@@ -414,8 +414,10 @@ impl Client {
                 // handshake must have been received. Ignore that.
 
                 if frame.nonce_ack == state.local_nonce {
-                    if (frame.max_receive_alloc as usize) < self.config.endpoint_config.max_packet_size {
-                        // A server never accepts a handshake it could not receive our largest
+                    if frame.max_receive_rate == 0 ||
+                       (frame.max_receive_alloc as usize) < self.config.endpoint_config.max_packet_size {
+                        // A receive rate of zero is not a valid endpoint configuration, and a
+                        // server never accepts a handshake it could not receive our largest
                         // packet for, so this reply is not from a well-behaved server. Packets up
                         // to max_packet_size are accepted by send() and must fit the peer's
                         // receive allocation; refuse rather than connect with a limit that
